@@ -261,6 +261,15 @@ fn check_misc(k: usize) -> Option<Witness> {
         4 => { let q = Query::select().columns([a("c"), a("d")]).expr_as(Expr::col(a("e")).add(1), a("f")).from(a("t")).from(a("u")).group_by_columns([a("c"), a("d")]).order_by(a("d"), Order::Asc).order_by(a("c"), Order::Desc).to_owned();
                e.q("SELECT `c`, `d`, `e` + 1 AS `f` FROM `t`, `u` GROUP BY `c`, `d` ORDER BY `d` ASC, `c` DESC");
                (q.to_string(MysqlQueryBuilder), q.to_string(PostgresQueryBuilder)) }
+        // window frames: <n> PRECEDING / <n> FOLLOWING are an offset and a keyword (two tokens)
+        5 | 6 | 7 => {
+            let mut w = WindowStatement::partition_by(a("g"));
+            w.order_by(a("x"), Order::Asc);
+            match k { 5 => { w.frame_between(FrameType::Rows, Frame::Preceding(2), Frame::Following(3)); } 6 => { w.frame_start(FrameType::Range, Frame::Preceding(1)); } _ => { w.frame_between(FrameType::Rows, Frame::UnboundedPreceding, Frame::CurrentRow); } }
+            let q = Query::select().expr_window_as(Expr::col(a("x")).sum(), w, a("s")).from(a("t")).to_owned();
+            let fr = match k { 5 => "ROWS BETWEEN 2 PRECEDING AND 3 FOLLOWING", 6 => "RANGE 1 PRECEDING", _ => "ROWS BETWEEN UNBOUNDED PRECEDING AND CURRENT ROW" };
+            e.q(&format!("SELECT SUM(`x`) OVER ( PARTITION BY `g` ORDER BY `x` ASC {fr} ) AS `s` FROM `t`"));
+            (q.to_string(MysqlQueryBuilder), q.to_string(PostgresQueryBuilder)) }
         _ => return None,
     };
     verdict(format!("misc k={k}"), &e, my, pg)
@@ -301,7 +310,7 @@ pub fn search(_obl: &str) -> Vec<Witness> {
     for nfrom in 0..3usize { for mask in 0..16u32 { run!(check_update(nfrom, mask)); } }
     for mask in 0..32u32 { run!(check_delete(mask)); }
     for mask in 0..8u32 { run!(check_with(mask)); }
-    for k in 0..5usize { run!(check_misc(k)); }
+    for k in 0..8usize { run!(check_misc(k)); }
     for shape in 0..4usize { for conflict in 0..9usize { for returning in 0..3usize { for with in [false, true] { run!(check_insert(shape, conflict, returning, with)); } } } }
     // ORDER BY item kinds x NULLS forms and lock forms, alone and with every other clause present
     for ord in 0..9usize { for lock in 0..4usize { for mask in [1 << 10, (1 << 10) | (1 << 13), (1 << SEL_BITS) - 1] { run!(check_select(mask, ord, lock)); } } }
